@@ -180,6 +180,7 @@ type RespSpec struct {
 	BodyOverride []byte // if non-nil, sent as the response body verbatim
 	HdrMut    func([]byte) []byte // applied to the escaped header value (each value) before it is put on the wire
 	BodyRaw   []byte   // if non-nil: the response body verbatim (members, signature and Fetch "garbage" ignored)
+	HdrDecoy  string   // "" | "lower" | "upper": besides the header under its exact name, the same name in another case carries a chain that does not verify (the two blocks swapped) | "only-lower" | "only-upper": the exact name is absent, the genuine chain sits under the other spelling
 }
 
 type CrlSpec struct {
@@ -220,6 +221,7 @@ type Spec struct {
 	PckCrl      CrlSpec
 	PckCrlHdrRoles []string
 	PckCrlHdrMode string
+	PckCrlHdrDecoy string // see RespSpec.HdrDecoy
 	RootCrls    []CrlSpec // one per distribution point of the QE-identity issuer root (same order as its CRLDPs)
 	GC, CR      bool
 	Pool        []string // roles; nil + PoolNil=true → embedded root
@@ -548,6 +550,7 @@ func (w *World) response(name string, member []byte, r *RespSpec, hdrKey string,
 		body = r.BodyRaw
 	}
 	hdr := w.issuerHeader(hdrKey, r.HdrRoles, defRoles, r.HdrMode, r.HdrTrailer)
+	w.hdrDecoy(hdr, hdrKey, r.HdrRoles, defRoles, r.HdrDecoy)
 	if r.HdrMut != nil {
 		for i, v := range hdr[hdrKey] {
 			hdr[hdrKey][i] = string(r.HdrMut([]byte(v)))
@@ -590,6 +593,33 @@ func (w *World) issuerHeader(key string, roles, defRoles []string, mode, trailer
 		h[key] = []string{val}
 	}
 	return h
+}
+
+// hdrDecoy: header maps are plain maps — nothing stops an endpoint (or a getter that does not canonicalise) from delivering
+// two keys that differ in case only.  The library reads the exact name.
+func (w *World) hdrDecoy(h map[string][]string, key string, roles, defRoles []string, decoy string) {
+	if decoy == "" {
+		return
+	}
+	if roles == nil {
+		roles = defRoles
+	}
+	other := strings.ToLower(key)
+	if strings.HasSuffix(decoy, "upper") {
+		other = strings.ToUpper(key)
+	}
+	if strings.HasPrefix(decoy, "only-") {
+		if v, ok := h[key]; ok {
+			delete(h, key)
+			h[other] = v
+		}
+		return
+	}
+	var bs []BlockSpec
+	for i := len(roles) - 1; i >= 0; i-- {
+		bs = append(bs, BlockSpec{Role: roles[i]})
+	}
+	h[other] = []string{url.QueryEscape(string(w.blocks(bs)))}
 }
 
 func (w *World) crl(c *CrlSpec) *Response {
@@ -778,6 +808,7 @@ func Build(s *Spec) *World {
 	pr := w.crl(&s.PckCrl)
 	if !pr.Err {
 		pr.Headers = w.issuerHeader(HdrCrl, s.PckCrlHdrRoles, []string{"inter", "root"}, s.PckCrlHdrMode, "")
+		w.hdrDecoy(pr.Headers, HdrCrl, s.PckCrlHdrRoles, []string{"inter", "root"}, s.PckCrlHdrDecoy)
 	}
 	g.M[w.PckCrlURL] = pr
 	qeRootRole := "root"
